@@ -57,6 +57,8 @@ def Val.text : Val → String
   | .str s => "(s " ++ s ++ ")"
   | .bool b => if b then "(b t)" else "(b f)"
   | .float b => s!"(f {b})"
+  | .binary bs => s!"(bin {bs.map (·.toNat)})"
+  | .timespan n => s!"(ts {n})"
   | .undef => "(u)"
   | .default => "(d)"
   | .arr vs => "(a" ++ Val.textL vs ++ ")"
@@ -120,6 +122,8 @@ theorem fromConvertible_cases (c : Val) (allowInt : Bool) :
           cases binFallback s.toList with
           | some i => left; simp [isNumber]
           | none => right; rfl
+  | binary bs => right; rfl
+  | timespan n => left; simp [fromConvertible, isNumber, isFloat]
   | undef => right; rfl
   | default => right; rfl
   | arr vs => right; rfl
@@ -255,7 +259,7 @@ theorem inst_named1 (x : Val) : inst namedArgsF (.hash [(.str "from", x)]) = ins
   cases h : inst convertibleF x <;> simp [namedArgsF, inst, instMembers, lookupKey, h]
 
 theorem convertibleF_hash (es : List (Val × Val)) : inst convertibleF (.hash es) = false := by
-  simp [convertibleF, inst, instAny]
+  simp [convertibleF, anyTimespan, inst, instAny]
 
 theorem namedArgsF_not_hash (x : Val) (hx : ∀ es, x ≠ .hash es) : inst namedArgsF x = false := by
   cases x <;> simp [namedArgsF, inst]
